@@ -306,8 +306,37 @@ def ghost_arg_table(ann):
     return {k: v for k, v in table.items() if v}
 
 
+UNIT_TABLE = {}     # filled by the unit builder: ghost-argument table of all templates of the unit (fallback for callees the function did not call before)
+
+
+def merge_tables(tables):
+    out, bad = {}, set()
+    for t in tables:
+        for k, v in t.items():
+            if k in out and out[k] != v:
+                bad.add(k)
+            out.setdefault(k, v)
+    for k in bad:
+        out.pop(k, None)
+    return out
+
+
 def complete_ghost_args(ann, merged):
-    table = ghost_arg_table(ann)
+    table = dict(UNIT_TABLE)
+    table.update(ghost_arg_table(ann))
+    # only ghost parameters that this function declares can be passed on
+    declared = set()
+    try:
+        k = ann.index("fn")
+        o = ann.index("(", k)
+        c = lex.match_close(ann, o)
+        hdr = ann[o:c]
+        for i, t in enumerate(hdr):
+            if t in ("Tracked", "Ghost") and hdr[i + 1] == "(" and i + 3 < len(hdr) and hdr[i + 3] == ")":
+                declared.add(hdr[i + 2])
+    except ValueError:
+        pass
+    table = {k: v for k, v in table.items() if all(len(a) == 4 and a[2] in declared for a in v)}
     if not table:
         return merged, 0
     edits = []
